@@ -27,6 +27,16 @@ func runC11(c *Ctx) {
 			c.Sample(map[string]interface{}{"files": sw.FileMap()})
 		}
 	})
+	// wide workspaces: more files than the machine has processors (the references worker pool hands files out in rounds), short
+	// files, so that every global occurs in many of them
+	nWide := c.N(6, 120)
+	parallel(nWide, 6, func(i int) {
+		r := root.Fork(uint64(8000000 + i))
+		sw := GenScopeWS(r, ScopeCfg{JoinPct: -1, GluePct: -1, NFiles: r.Range(20, 44), Depth: 1, Stats: r.Range(1, 3)})
+		c.Eval(1)
+		c.Count("wide_workspaces", 1)
+		checkC11WS(c, sw, fmt.Sprintf("c11wide%d", i), r.Fork(99))
+	})
 	nDirty := c.N(60, 1500)
 	parallel(nDirty, 14, func(i int) {
 		r := root.Fork(uint64(4000000 + i))
@@ -35,7 +45,7 @@ func runC11(c *Ctx) {
 		c.Count("workspaces_with_an_unsaved_edit", 1)
 		checkC11WSDirty(c, sw, fmt.Sprintf("c11d%d", i), r.Fork(99), sw.Files[r.Intn(len(sw.Files))].Rel)
 	})
-	c.Finish("generated workspaces as in C05 (a third of them after a client settings notification that switches the references option `include the definition` off), plus workspaces in which the renamed local lives in a document with an unsaved edit that shifts every position; textDocument/rename with a fresh identifier at every renameable occurrence; the returned "+
+	c.Finish("generated workspaces as in C05, among them workspaces of 20-44 short files (a third of them after a client settings notification that switches the references option `include the definition` off), plus workspaces in which the renamed local lives in a document with an unsaved edit that shifts every position; textDocument/rename with a fresh identifier at every renameable occurrence; the returned "+
 		"WorkspaceEdit is checked for (1) pairwise disjoint edits, (2) old name under every edit in the client's text, (3) set equality with the "+
 		"reference binder's occurrence class, (4) after applying it: re-parse, isomorphic binding graph, and (sampled) equal diagnostics of a fresh "+
 		"server up to the name. distinct_nontrivial = distinct (file text, occurrence) renamed with a definite expectation", 300)
